@@ -93,12 +93,11 @@ def main():
             for rr in batch:
                 f.write(json.dumps(rr) + "\n")
         with open(os.path.join(SPEC, ".chk.cfg"), "w") as f:
-            f.write("SPECIFICATION CheckSpec\nINVARIANT Checked\nPOSTCONDITION Done\nCHECK_DEADLOCK FALSE\n")
+            f.write("SPECIFICATION CheckSpec\nINVARIANT CheckedAll\nPOSTCONDITION Done\nCHECK_DEADLOCK FALSE\n")
         r = vlib.run_tlc(SPEC, "GraphSpec.tla", ".chk.cfg", "C42-chk", workers=1, timeout=3000, env={"TRACE": tfile}, xmx="12g")
         cov["transitions"] += r.states
-        if r.violated == "Checked":
-            m = re.search(r"l = (\d+)", r.out[r.out.rfind("State "):])
-            k = int(m.group(1)) - 1 if m else 0
+        for mm_ in re.finditer(r'"BAD (\d+)"', r.out):
+            k = int(mm_.group(1)) - 1
             bad = batch[k]
             jt = "+".join(sorted(set(j["type"] for j in bad["in"]["joints"])))
             key = "invalid-tree/nb=%d/nj=%d/%s/massless=%d/loopflags=%d/base=%d" % (
@@ -110,13 +109,9 @@ def main():
                     mm = [m for m in bad["out"]["mobs"] if m["outb"] == b and not m["slave"]]
                     if mm and mm[0]["inb"] != 0:
                         key = "base-flag-not-honoured/inboard-%s" % ("massless" if bad["in"]["mass"][mm[0]["inb"] - 1] == 0 else "massful")
-            rep.violation(key, {"input": bad["in"], "output": bad["out"]},
-                          "MultibodyGraphMaker produced an invalid model for %s: %s" % (json.dumps(bad["in"]), json.dumps(bad["out"])[:700]))
-            cov["traces_validated_against_impl"] += k
-            start += k + 1
-            if len(rep.violations) > 25:
-                break
-            continue
+            if len(rep.violations) <= 25:
+                rep.violation(key, {"input": bad["in"], "output": bad["out"]},
+                              "MultibodyGraphMaker produced an invalid model for %s: %s" % (json.dumps(bad["in"]), json.dumps(bad["out"])[:700]))
         if r.error or '"CHECKED"' not in r.out:
             raise vlib.Infra("GraphSpec check failed: %s\n%s" % (r.error, r.out[-2000:]))
         cov["traces_validated_against_impl"] += len(batch)
